@@ -35,13 +35,28 @@ fn now_s() -> u64 {
 
 /// Decode one taped TCP link (both directions) with the reference implementation; returns the fresh per-session values seen.
 fn decode_link(cfg: &Cfg, c2s: &[u8], s2c: &[u8], fresh: &mut Vec<(&'static str, Vec<u8>)>) -> Result<(), String> {
+    decode_link_x(cfg, c2s, s2c, fresh, false)
+}
+
+/// `answer_only`: the request is read for its keys only, the units recorded are those of the answer (the request bytes
+/// are a verbatim copy of a request that has been recorded already).
+fn decode_link_x(cfg: &Cfg, c2s: &[u8], s2c: &[u8], fresh: &mut Vec<(&'static str, Vec<u8>)>, answer_only: bool) -> Result<(), String> {
     let now = now_s();
+    let forget_request = |fresh: &mut Vec<(&'static str, Vec<u8>)>, mark: usize| {
+        if answer_only {
+            let _ = refimpl::unit_log_take();
+            refimpl::unit_log_start();
+            fresh.truncate(mark);
+        }
+    };
+    let mark = fresh.len();
     match cfg.proto {
         Proto::Ss(m) if m.is_2022() => {
             let mut r = ss::S22ServerReader::new(m, &cfg.ref_server_psk(), cfg.ref_users(), now);
             r.feed(c2s).map_err(|e| format!("request: {e}"))?;
             let salt = r.salt.clone().ok_or("request: no salt")?;
             fresh.push(("request-salt", salt.clone()));
+            forget_request(fresh, mark);
             if !s2c.is_empty() {
                 let key = r.response_key().to_vec();
                 let mut cr = ss::S22ClientReader::new(m, &key, &salt, now);
@@ -58,6 +73,7 @@ fn decode_link(cfg: &Cfg, c2s: &[u8], s2c: &[u8], fresh: &mut Vec<(&'static str,
             if let Some(s) = r.salt.clone() {
                 fresh.push(("request-salt", s));
             }
+            forget_request(fresh, mark);
             if !s2c.is_empty() {
                 let mut r2 = ss::Sip004Reader::new(m, &master, false);
                 r2.feed(s2c).map_err(|e| format!("response: {e}"))?;
@@ -72,7 +88,11 @@ fn decode_link(cfg: &Cfg, c2s: &[u8], s2c: &[u8], fresh: &mut Vec<(&'static str,
             fresh.push(("vmess-body-key-iv", [o.header.body_key.to_vec(), o.header.body_iv.to_vec()].concat()));
             let h = o.header.clone();
             let mut body = vmess::Body::new(vmess::Direction::Request, h.security, h.option, &h.body_key, &h.body_iv);
-            body.feed(&c2s[o.consumed..]).map_err(|e| format!("request body: {e}"))?;
+            let rb = body.feed(&c2s[o.consumed..]).map_err(|e| format!("request body: {e}"));
+            forget_request(fresh, mark);
+            if !answer_only {
+                rb?;
+            }
             if !s2c.is_empty() {
                 let (rk, ri) = vmess::response_keys(&h.body_key, &h.body_iv);
                 let (_content, used) = vmess::open_response_header(&rk, &ri, s2c).map_err(|e| format!("response header: {e}"))?;
@@ -346,6 +366,168 @@ async fn one_config(a: Args, idx: usize, proto: Proto, transport: Transport) -> 
     rep
 }
 
+/// An always-answering target: greets with 200 bytes at once, then echoes.
+async fn start_greeter() -> Option<(u16, tokio::task::JoinHandle<()>, Arc<std::sync::atomic::AtomicU64>)> {
+    use tokio::io::{AsyncReadExt, AsyncWriteExt};
+    let l = tokio::net::TcpListener::bind("127.0.0.1:0").await.ok()?;
+    let port = l.local_addr().ok()?.port();
+    let dials = Arc::new(std::sync::atomic::AtomicU64::new(0));
+    let d2 = dials.clone();
+    let h = tokio::spawn(async move {
+        while let Ok((mut s, _)) = l.accept().await {
+            let n = d2.fetch_add(1, std::sync::atomic::Ordering::SeqCst);
+            tokio::spawn(async move {
+                let greeting: Vec<u8> = (0..200u32).map(|i| (i as u8) ^ (n as u8)).collect();
+                if s.write_all(&greeting).await.is_err() {
+                    return;
+                }
+                let mut b = [0u8; 4096];
+                while let Ok(k) = s.read(&mut b).await {
+                    if k == 0 || s.write_all(&b[..k]).await.is_err() {
+                        break;
+                    }
+                }
+            });
+        }
+    });
+    Some((port, h, dials))
+}
+
+/// Present `wire` to the server through `via` and collect what it answers (until 400 ms of silence after the first
+/// answer byte, at most 3 s / 64 KiB).
+async fn present(via: Transport, port: u16, wire: &[u8]) -> Result<Vec<u8>, String> {
+    let mut p = super::pipe::Pipe::connect(via, port).await?;
+    p.send(wire).await?;
+    let mut got = Vec::new();
+    let deadline = tokio::time::Instant::now() + Duration::from_secs(3);
+    loop {
+        let wait = if got.is_empty() { Duration::from_millis(1200) } else { Duration::from_millis(400) };
+        match tokio::time::timeout(wait, p.recv()).await {
+            Ok(Ok(Some(b))) => got.extend_from_slice(&b),
+            _ => break,
+        }
+        if got.len() > 65536 || tokio::time::Instant::now() > deadline {
+            break;
+        }
+    }
+    p.abort();
+    Ok(got)
+}
+
+/// A request the server has answered is presented again, verbatim, by a third party (an attacker who taped it): once
+/// more, and as three simultaneous copies. The server seals its answers under keys it derives from the request (VMess:
+/// response header and body key / IV are functions of the request's; Shadowsocks: the master key and a salt of the
+/// server's choosing), so EVERYTHING it sends in answer to the copies goes into one (key, nonce) set with the answer to
+/// the original. Whether the copy is refused or served is not judged here (C10) - only that no two units the server
+/// ever emitted share key and nonce.
+async fn replayed_requests(a: Args, idx: usize, proto: Proto, transport: Transport) -> Report {
+    use crate::peer::{ClientOpts, RefClient};
+    let mut rep = Report::new();
+    let mut rng = Rng::derive(a.seed, 0xC12F, idx as u64);
+    let users = match proto {
+        Proto::Ss(m) if m.supports_eih() => *rng.pick(&[0usize, 2]),
+        Proto::Vmess(_) => 2,
+        _ => 0,
+    };
+    let cfg = Cfg::random(&mut rng, proto, users);
+    let dir = work_dir(&a, &format!("c12-r{idx}"));
+    let d = Deploy::new(cfg.clone(), transport, false, 2, &dir);
+    let cfgname = format!("{}|{}|users={}", proto.name(), transport.name(), users);
+    let (dd, tag) = (d.clone(), format!("c12-r{idx}"));
+    let quic = matches!(transport, Transport::Quic);
+    let started = tokio::task::spawn_blocking(move || {
+        let mut server = start_node("server", &dd.server_json(), &dd.dir, &tag, dd.workers, &dd.log_level, None, None).map_err(|e| e.to_string())?;
+        wait_ready(&mut server, if quic { None } else { Some(dd.server_port) }, if quic { Some(dd.server_port) } else { None }, Duration::from_secs(15))?;
+        Ok::<Node, String>(server)
+    })
+    .await
+    .unwrap();
+    let mut server = match started {
+        Ok(s) => s,
+        Err(e) => {
+            rep.inconclusive(format!("{cfgname}: server does not start: {}", e.lines().next().unwrap_or("")));
+            return rep;
+        }
+    };
+    let Some((tport, greeter, dials)) = start_greeter().await else { return rep };
+    let mut set = UnitSet::default();
+    let rounds = if a.thorough { 6 } else { 2 };
+    let mut served_again = 0u64;
+    for round in 0..rounds {
+        let opts = ClientOpts { vmess_option: *rng.pick(&[0x01u8, 0x05, 0x0D, 0x1D]), ..ClientOpts::default() };
+        let mut c = RefClient::new(&cfg, &refimpl::addr::Addr::V4([127, 0, 0, 1], tport), &mut rng, now_s(), opts);
+        let n = rng.range(1, 900);
+        let payload = rng.bytes(n);
+        let wire = c.write(&payload, &mut rng);
+        let first = match present(transport, d.server_port, &wire).await {
+            Ok(b) => b,
+            Err(e) => {
+                rep.inconclusive(format!("{cfgname}: {e}"));
+                continue;
+            }
+        };
+        rep.evaluations += 1;
+        if first.is_empty() {
+            rep.inconclusive(format!("{cfgname}: the original request was not answered"));
+            continue;
+        }
+        let mut fresh = Vec::new();
+        refimpl::unit_log_start();
+        let r = decode_link_x(&cfg, &wire, &first, &mut fresh, false);
+        let units = refimpl::unit_log_take();
+        if let Err(e) = r {
+            if !(e.contains("ncomplete") || e.contains("truncated")) {
+                rep.inconclusive(format!("{cfgname}: the answer to the original is not readable: {e}"));
+                continue;
+            }
+        }
+        rep.mon("replay:answers_to_originals_decoded", 1);
+        rep.mon("replay:aead_units_recorded", units.len() as u64);
+        check_units(&mut rep, "wire-replay", &cfgname, units, &mut set, json!({"seed": a.seed, "round": round, "copy": 0}));
+        // the copies: one more, then three at once
+        let before = dials.load(std::sync::atomic::Ordering::SeqCst);
+        let mut answers = vec![present(transport, d.server_port, &wire).await.unwrap_or_default()];
+        let (p1, p2, p3) = tokio::join!(present(transport, d.server_port, &wire), present(transport, d.server_port, &wire), present(transport, d.server_port, &wire));
+        answers.extend([p1.unwrap_or_default(), p2.unwrap_or_default(), p3.unwrap_or_default()]);
+        rep.evaluations += 4;
+        rep.mon("replay:copies_presented", 4);
+        for (k, ans) in answers.iter().enumerate() {
+            if ans.is_empty() {
+                rep.mon("replay:copies_left_unanswered", 1);
+                continue;
+            }
+            rep.mon("replay:copies_answered", 1);
+            refimpl::unit_log_start();
+            let r = decode_link_x(&cfg, &wire, ans, &mut fresh, true);
+            let units = refimpl::unit_log_take();
+            rep.mon("replay:aead_units_recorded", units.len() as u64);
+            if let Err(e) = &r {
+                if units.is_empty() {
+                    rep.mon("replay:answers_to_copies_not_readable_with_the_request_keys", 1);
+                    let _ = e;
+                }
+            }
+            check_units(&mut rep, "wire-replay", &cfgname, units, &mut set, json!({"seed": a.seed, "round": round, "copy": k + 1, "answer_bytes": ans.len(), "deploy": d.describe()}));
+        }
+        tokio::time::sleep(Duration::from_millis(100)).await;
+        served_again += dials.load(std::sync::atomic::Ordering::SeqCst).saturating_sub(before);
+    }
+    rep.mon("replay:copies_that_reached_the_target_(C10_judges_that)", served_again);
+    rep.case(&("wire-replay", idx), set.count > 0);
+    if idx == 0 {
+        rep.sample(json!({"config": cfgname, "part": "replayed requests", "rounds": rounds, "copies_per_request": 4, "aead_units": set.count}));
+    }
+    if !server.alive() {
+        rep.violation(format!("C12|wire-replay|{}|server-exited", cfgname), "server exited", json!({"log": server.log_tail(8)}));
+    }
+    greeter.abort();
+    drop(server);
+    if std::env::var("OSV_KEEP_LOGS").is_err() {
+        let _ = std::fs::remove_dir_all(&dir);
+    }
+    rep
+}
+
 pub async fn run(a: &Args) -> Report {
     // the wire is decodable for the plain tcp transport (tls / quic hide it, websocket frames mask it)
     let protos: Vec<Proto> = all_protos().into_iter().filter(|p| p.encrypted()).collect();
@@ -361,6 +543,22 @@ pub async fn run(a: &Args) -> Report {
             let _g = sem.acquire_owned().await.unwrap();
             one_config(a, idx, p, Transport::Tcp).await
         }));
+    }
+    // requests presented again by a third party, through every transport (quick: one rotating transport per protocol)
+    let protos: Vec<Proto> = all_protos().into_iter().filter(|p| p.encrypted()).collect();
+    for (idx, p) in protos.into_iter().enumerate() {
+        for (k, t) in ALL_TRANSPORTS.iter().enumerate() {
+            if !a.thorough && (idx + k + a.seed as usize) % 5 != 0 {
+                continue;
+            }
+            let a = a.clone();
+            let sem = sem.clone();
+            let t = *t;
+            hs.push(tokio::spawn(async move {
+                let _g = sem.acquire_owned().await.unwrap();
+                replayed_requests(a, idx * 8 + k, p, t).await
+            }));
+        }
     }
     let mut rep = Report::new();
     for h in hs {
